@@ -171,6 +171,12 @@ Proof. induction l as [|a l IH]; simpl; intros H; [constructor|]. inversion H; s
 Lemma NoDup_app_r {A} (l r : list A) : NoDup (l ++ r) -> NoDup r.
 Proof. induction l as [|a l IH]; simpl; intros H; [exact H|]. inversion H; subst. auto. Qed.
 
+Lemma NoDup_app_disjoint {A} (l r : list A) x : NoDup (l ++ r) -> In x l -> In x r -> False.
+Proof.
+  induction l as [|a l IH]; simpl; intros H Hl Hr; [destruct Hl|]. inversion H; subst.
+  destruct Hl as [->|Hl]; [apply H2; apply in_or_app; auto|auto].
+Qed.
+
 Lemma NoDup_perm_app {A} (l l' r : list A) : Permutation l l' -> NoDup (l ++ r) -> NoDup (l' ++ r).
 Proof. intros P. apply Permutation_NoDup. apply Permutation_app_tail. exact P. Qed.
 
@@ -248,7 +254,7 @@ Lemma step_ginv s l s' : GInv s -> step s l = Some s' -> GInv s'.
 Proof.
   intros G HS. destruct G as [GL GP GN GT GK GB GS GD GC].
   unfold step in HS. rewrite GP in HS.
-  destruct l as [|k id o|id].
+  destruct l as [|k id o|id|].
   - (* LInsert *)
     destruct (p_src s) as [|[[id u] h] r] eqn:ES; [discriminate|].
     destruct (Nat.ltb (p_tokens s) (p_w s)) eqn:E1; [|discriminate].
@@ -363,12 +369,22 @@ Proof.
         destruct (Nat.eq_dec i 9) as [->|Hi9].
         -- rewrite nth_upd_same by (rewrite GL; unfold NPLACES; lia). pose proof (GC 9%nat Hi). unfold place in *. lia.
         -- rewrite nth_upd_other by auto. apply GC. exact Hi.
+  - (* LDiscard: the first row goes from the queue straight to the finish reports *)
+    destruct (p_src s) as [|[[id u] h] r] eqn:ES; [discriminate|].
+    inversion HS; subst s'; clear HS.
+    constructor; psimpl; auto.
+    + unfold flight_ids, in_flight in *; psimpl.
+      cbn [map] in GN. unfold row_id in GN at 2. cbn [fst] in GN.
+      apply (Permutation_NoDup (l := (map s_id (concat (p_places s)) ++ map fst (p_finished s) ++ id :: map row_id r))); [|exact GN].
+      clear GN GT. permN.
+    + intros id' t' HI. apply in_app_or in HI. destruct HI as [HI|[HI|[]]]; [eapply GD; eauto|].
+      inversion HI; subst. reflexivity.
 Qed.
 
 Lemma step_static s l s' : step s l = Some s' -> p_w s' = p_w s /\ p_cfg s' = p_cfg s.
 Proof.
   unfold step. destruct (p_panicked s); [discriminate|].
-  destruct l as [|k id o|id].
+  destruct l as [|k id o|id|].
   - destruct (p_src s) as [|[[a b] c] r]; [discriminate|].
     destruct (_ && _); [|discriminate]. intros H; inversion H; auto.
   - destruct (Nat.ltb k 9); [|discriminate]. destruct (take id (place k s)) as [[x rest]|]; [|discriminate].
@@ -376,6 +392,7 @@ Proof.
   - destruct (take id (place 9 s)) as [[x rest]|]; [|discriminate].
     destruct (fin_worker _) as [[t [|]]|]; try (intros H; inversion H; auto; fail).
     destruct (Nat.ltb _ _); [|discriminate]. intros H; inversion H; auto.
+  - destruct (p_src s) as [|[[a b] c] r]; [discriminate|]. intros H; inversion H; auto.
 Qed.
 
 Lemma run_static ls : forall s s', run s ls = Some s' -> p_w s' = p_w s /\ p_cfg s' = p_cfg s.
@@ -401,7 +418,7 @@ Proof.
   intros G HS.
   destruct G as [GL GP GN GT GK GB GS GD GC].
   unfold step in HS. rewrite GP in HS. unfold census.
-  destruct l as [|k id o|id].
+  destruct l as [|k id o|id|].
   - destruct (p_src s) as [|[[id u] h] r] eqn:ES; [discriminate|].
     destruct (_ && _); [|discriminate].
     remember (SD id (fst (seed0 u h)) (snd (seed0 u h)) null_oracle 0) as x eqn:Ex.
@@ -433,6 +450,10 @@ Proof.
       destruct (flight_upd s 9 (fun _ => rest) ltac:(rewrite GL; unfold NPLACES; lia)) as (oth & P1 & P2).
       pose proof (Permutation_map s_id PT) as PT'. cbn [map] in PT'.
       unfold flight_ids at 2, in_flight; psimpl. rewrite P2. clear P2 GT GN. permN.
+  - destruct (p_src s) as [|[[id u] h] r] eqn:ES; [discriminate|].
+    inversion HS; subst s'; clear HS. psimpl.
+    unfold flight_ids, in_flight; psimpl. clear GT GN.
+    change (map row_id ((id, u, h) :: r)) with (id :: map row_id r). permN.
 Qed.
 
 Theorem run_census ls : forall s s', GInv s -> run s ls = Some s' -> Permutation (census s) (census s').
@@ -547,6 +568,154 @@ Proof.
   - exfalso. destruct (deadlock_free s G ltac:(lia)) as (l & s' & HS).
     + left. rewrite ES. discriminate.
     + rewrite Hstuck in HS. discriminate.
+Qed.
+
+(* -------- what the queue hears: the finish reports along an execution -------- *)
+Lemma run_app la : forall s lb, run s (la ++ lb) = match run s la with Some s1 => run s1 lb | None => None end.
+Proof.
+  induction la as [|l r IH]; intros s lb; simpl; [reflexivity|].
+  destruct (step s l) as [s1|]; [apply IH|reflexivity].
+Qed.
+
+Lemma reports_app la : forall s s1 lb, run s la = Some s1 -> reports s (la ++ lb) = reports s la ++ reports s1 lb.
+Proof.
+  induction la as [|l r IH]; intros s s1 lb H; simpl in *.
+  - inversion H; subst. reflexivity.
+  - destruct (step s l) as [s'|]; [|discriminate]. rewrite (IH _ _ lb H). rewrite app_assoc. reflexivity.
+Qed.
+
+(* [p_finished] is the log of the reports: a step appends exactly what it reports, nothing else touches it *)
+Lemma step_log s l s' : step s l = Some s' -> map fst (p_finished s') = map fst (p_finished s) ++ report_of s l.
+Proof.
+  unfold step, report_of. destruct (p_panicked s); [discriminate|].
+  destruct l as [|k id o|id|].
+  - destruct (p_src s) as [|[[a b] c] r]; [discriminate|].
+    destruct (_ && _); [|discriminate]. intros H; inversion H; subst; psimpl. rewrite app_nil_r. reflexivity.
+  - destruct (Nat.ltb k 9); [|discriminate]. destruct (take id (place k s)) as [[x rest]|]; [|discriminate].
+    destruct (Nat.ltb _ _); [|discriminate].
+    destruct (stage _ _ _ _); intros H; inversion H; subst; psimpl; rewrite app_nil_r; reflexivity.
+  - destruct (take id (place 9 s)) as [[x rest]|]; [|discriminate].
+    destruct (fin_worker _) as [[t [|]]|].
+    + destruct (Nat.ltb _ _); [|discriminate]. intros H; inversion H; subst; psimpl. rewrite app_nil_r. reflexivity.
+    + intros H; inversion H; subst; psimpl. rewrite map_app. reflexivity.
+    + intros H; inversion H; subst; psimpl. rewrite app_nil_r. reflexivity.
+  - destruct (p_src s) as [|[[a b] c] r]; [discriminate|].
+    intros H; inversion H; subst; psimpl. rewrite map_app. reflexivity.
+Qed.
+
+Lemma run_log ls : forall s s', run s ls = Some s' -> map fst (p_finished s') = map fst (p_finished s) ++ reports s ls.
+Proof.
+  induction ls as [|l r IH]; intros s s' H; simpl in *.
+  - inversion H; subst. rewrite app_nil_r. reflexivity.
+  - destruct (step s l) as [s1|] eqn:E; [|discriminate].
+    rewrite (IH _ _ H), (step_log _ _ _ E), app_assoc. reflexivity.
+Qed.
+
+(* the queue only shrinks, from its head *)
+Lemma step_src s l s' : step s l = Some s' -> exists pre, p_src s = pre ++ p_src s'.
+Proof.
+  unfold step. destruct (p_panicked s); [discriminate|].
+  destruct l as [|k id o|id|].
+  - destruct (p_src s) as [|[[a b] c] r]; [discriminate|].
+    destruct (_ && _); [|discriminate]. intros H; inversion H; subst; psimpl. exists [(a, b, c)]. reflexivity.
+  - destruct (Nat.ltb k 9); [|discriminate]. destruct (take id (place k s)) as [[x rest]|]; [|discriminate].
+    destruct (Nat.ltb _ _); [|discriminate].
+    destruct (stage _ _ _ _); intros H; inversion H; subst; psimpl; exists []; reflexivity.
+  - destruct (take id (place 9 s)) as [[x rest]|]; [|discriminate].
+    destruct (fin_worker _) as [[t [|]]|].
+    + destruct (Nat.ltb _ _); [|discriminate]. intros H; inversion H; subst; psimpl. exists []; reflexivity.
+    + intros H; inversion H; subst; psimpl. exists []; reflexivity.
+    + intros H; inversion H; subst; psimpl. exists []; reflexivity.
+  - destruct (p_src s) as [|[[a b] c] r]; [discriminate|].
+    intros H; inversion H; subst; psimpl. exists [(a, b, c)]. reflexivity.
+Qed.
+
+Lemma run_src ls : forall s s', run s ls = Some s' -> exists pre, p_src s = pre ++ p_src s'.
+Proof.
+  induction ls as [|l r IH]; intros s s' H; simpl in *.
+  - inversion H; subst. exists []. reflexivity.
+  - destruct (step s l) as [s1|] eqn:E; [|discriminate].
+    destruct (IH _ _ H) as (p2 & E2). destruct (step_src _ _ _ E) as (p1 & E1).
+    exists (p1 ++ p2). rewrite E1, E2, app_assoc. reflexivity.
+Qed.
+
+(* Exactly once, at the queue's side: along EVERY execution the queue receives at most one report per
+   row and only for its own rows; in a state that cannot move it has received exactly one for each. *)
+Theorem reports_exactly_once w c rows ls s :
+  NoDup (map row_id rows) -> run (init w c rows) ls = Some s ->
+  NoDup (reports (init w c rows) ls)
+  /\ (forall id, In id (reports (init w c rows) ls) -> In id (map row_id rows))
+  /\ Permutation (map row_id rows) (map row_id (p_src s) ++ flight_ids s ++ reports (init w c rows) ls)
+  /\ ((1 <= w)%nat -> (forall l, step s l = None) -> Permutation (map row_id rows) (reports (init w c rows) ls)).
+Proof.
+  intros ND HR.
+  destruct (pipeline_safe w c rows ls s ND HR) as (_ & NF & _ & PC & _).
+  pose proof (run_log ls _ _ HR) as EL. simpl in EL. rewrite <- EL.
+  repeat split; auto.
+  - intros id Hin. apply (Permutation_in id (Permutation_sym PC)).
+    apply in_or_app; right. apply in_or_app; right. exact Hin.
+  - intros HW Hstuck. destruct (pipeline_quiescent w c rows ls s ND HW HR Hstuck) as (_ & _ & _ & _ & P). exact P.
+Qed.
+
+(* A row that has been reported is out of the pipeline for good: whatever happens afterwards it is
+   not queued, not tracked by the reactor, in no channel and with no worker, and it is not reported again. *)
+Theorem reported_never_again w c rows la lb s1 s2 id :
+  NoDup (map row_id rows) -> run (init w c rows) la = Some s1 -> In id (reports (init w c rows) la) ->
+  run s1 lb = Some s2 ->
+  ~ In id (map row_id (p_src s2)) /\ ~ In id (flight_ids s2) /\ ~ In id (p_table s2) /\ ~ In id (reports s1 lb).
+Proof.
+  intros ND H1 Hin H2.
+  assert (HR : run (init w c rows) (la ++ lb) = Some s2) by (rewrite run_app, H1; exact H2).
+  destruct (pipeline_safe w c rows _ s2 ND HR) as (_ & _ & _ & _ & NC & PT & _).
+  destruct (reports_exactly_once w c rows _ s2 ND HR) as (NR & _).
+  rewrite (reports_app la _ s1 lb H1) in NR.
+  pose proof (run_log _ _ _ HR) as EL. simpl in EL. rewrite (reports_app la _ s1 lb H1) in EL.
+  assert (HF : In id (map fst (p_finished s2))) by (rewrite EL; apply in_or_app; left; exact Hin).
+  assert (A : ~ In id (map row_id (p_src s2))).
+  { intros Hs. apply (NoDup_app_disjoint _ _ id NC Hs). apply in_or_app; right; exact HF. }
+  assert (B : ~ In id (flight_ids s2)).
+  { intros Hf. apply NoDup_app_r in NC. exact (NoDup_app_disjoint _ _ id NC Hf HF). }
+  repeat split; auto.
+  - intros Ht. apply B. apply (Permutation_in id (Permutation_sym PT)). exact Ht.
+  - intros Hr. exact (NoDup_app_disjoint _ _ id NR Hin Hr).
+Qed.
+
+(* The consumer's discard arm: a row the consumer finishes at once was at NO earlier moment of the
+   execution in the pipeline (nor reported); the step itself takes no token, leaves the reactor and every
+   channel as they were and delivers exactly one report; and at no later moment is the row in the
+   pipeline or reported again. *)
+Theorem discarded_row_never_in_pipeline w c rows ls s id u h r :
+  NoDup (map row_id rows) -> run (init w c rows) ls = Some s -> p_src s = (id, u, h) :: r ->
+  (forall la lb s0, ls = la ++ lb -> run (init w c rows) la = Some s0 ->
+     ~ In id (flight_ids s0) /\ ~ In id (p_table s0) /\ ~ In id (reports (init w c rows) la))
+  /\ exists s', step s LDiscard = Some s' /\ report_of s LDiscard = [id]
+       /\ p_src s' = r /\ p_tokens s' = p_tokens s /\ p_table s' = p_table s /\ p_places s' = p_places s
+       /\ forall lb s2, run s' lb = Some s2 ->
+            ~ In id (map row_id (p_src s2)) /\ ~ In id (flight_ids s2) /\ ~ In id (p_table s2) /\ ~ In id (reports s' lb).
+Proof.
+  intros ND HR ES. split.
+  - intros la lb s0 E H0. subst ls. rewrite run_app, H0 in HR.
+    destruct (run_src _ _ _ HR) as (pre & EP).
+    destruct (pipeline_safe w c rows la s0 ND H0) as (_ & _ & _ & _ & NC & PT & _).
+    pose proof (run_log _ _ _ H0) as EL. simpl in EL. rewrite <- EL.
+    assert (HS : In id (map row_id (p_src s0))).
+    { rewrite EP, ES, map_app. apply in_or_app; right. left. reflexivity. }
+    assert (B : ~ In id (flight_ids s0)).
+    { intros Hf. apply (NoDup_app_disjoint _ _ id NC HS). apply in_or_app; left; exact Hf. }
+    repeat split; auto.
+    + intros Ht. apply B. apply (Permutation_in id (Permutation_sym PT)). exact Ht.
+    + intros Hf. apply (NoDup_app_disjoint _ _ id NC HS). apply in_or_app; right; exact Hf.
+  - destruct (pipeline_safe w c rows ls s ND HR) as (NP & _).
+    eexists. unfold step, report_of. rewrite NP, ES. split; [reflexivity|]. psimpl.
+    do 5 (split; [reflexivity|]).
+    intros lb s2 H2.
+    set (s' := PST (p_w s) (p_cfg s) r (p_tokens s) (p_table s) (p_places s) (p_finished s ++ [(id, dead_leaf u h)]) false) in *.
+    assert (E1 : step s LDiscard = Some s') by (unfold step; rewrite NP, ES; reflexivity).
+    assert (H1 : run (init w c rows) (ls ++ [LDiscard]) = Some s') by (rewrite run_app, HR; simpl; rewrite E1; reflexivity).
+    assert (Hin : In id (reports (init w c rows) (ls ++ [LDiscard]))).
+    { rewrite (reports_app ls _ s [LDiscard] HR). apply in_or_app; right. simpl. rewrite E1.
+      unfold report_of. rewrite ES. left. reflexivity. }
+    exact (reported_never_again w c rows _ lb s' s2 id ND H1 Hin H2).
 Qed.
 
 (* the non-vacuity of the hypotheses: a reachable state exists for every label list prefix that is
